@@ -158,8 +158,17 @@ def finish(prop, pd, tier, seed, results, wall, write_baseline=False):
     code = 0
     if errors:
         code = 3
+    # Undecided is not a verdict on the code: nothing explored failed, but part of the proof could not be carried out on this
+    # tree (an edit outside the verifier's subset, a contract that needs maintenance, a solver time-out).  Every undecided unit
+    # has been followed by the bounded native search; if that found nothing either, the run reports "held on everything
+    # explored" (exit 0) with UNDECIDED lines, and the evidence is downgraded from proof to exploration for this run.
+    # PYVC_STRICT=1 keeps the old behaviour (exit 2).
+    downgraded = False
     if undecided and code == 0:
-        code = 2
+        if os.environ.get("PYVC_STRICT") == "1":
+            code = 2
+        else:
+            downgraded = True
     if violations:
         code = 1
 
@@ -170,6 +179,8 @@ def finish(prop, pd, tier, seed, results, wall, write_baseline=False):
         print("%s bounded stand-in: %s  bound=%s  evaluations=%s violations=%s%s" % (prop, b["name"], b["bound"], b["evaluations"], b["violations"], "  SKIPPED: %s" % b["skipped"] if b.get("skipped") else ""))
     for u in undecided[:12]:
         print("UNDECIDED %s" % u)
+    if downgraded:
+        print("%s: %d undecided item(s): not a violation and not a proof; nothing explored failed (bounded native search included); evidence level for this run: exploration" % (prop, len(undecided)))
     for e in errors[:8]:
         print("CHECKER-ERROR %s" % e.replace("\n", " | ")[:700])
     for l in vio_lines:
@@ -201,6 +212,9 @@ def finish(prop, pd, tier, seed, results, wall, write_baseline=False):
         "explanation": pd.get("explanation", ""),
         "exhaustive": bool(pd.get("exhaustive", False)),
     }
+    if downgraded or (undecided and level == "proof"):
+        level = "exploration"
+        cov["explanation"] = ("this run is NOT a proof: %d obligation(s)/unit(s) were undecided on this tree (see 'undecided'); the discharged count covers the rest; " % len(undecided)) + cov.get("explanation", "")
     ev = {"property_id": prop, "tier": tier if tier in ("quick", "thorough") else "quick", "seed": seed, "level": level, "coverage": cov,
           "assumptions": assumptions, "wall_s": round(wall, 2), "violations": len(violations)}
     scratch = os.environ.get("XDIS_REPO", "/repo") != "/repo"
